@@ -296,6 +296,12 @@ type Interp struct {
 	Notes  []string
 	Tables map[string]bool
 	depth  int
+	// Sel resolves a field selection (x.f) to a value; nil result = not modelled. Used to evaluate
+	// code for one fixed value of a field (the protocol version of a pack).
+	Sel func(sel *ast.SelectorExpr) *Value
+	// ConstTables: package-level array/slice/map literals of constants indexed by a constant yield
+	// the constant (instead of an uninterpreted table look-up)
+	ConstTables bool
 }
 
 type frame struct {
@@ -725,7 +731,18 @@ func (ip *Interp) expr(fr *frame, e ast.Expr, want types.Type) *Value {
 			}
 			return &Value{B: b}
 		}
+	case *ast.SelectorExpr:
+		if ip.Sel != nil {
+			if val := ip.Sel(v); val != nil {
+				return val
+			}
+		}
 	case *ast.IndexExpr:
+		if ip.ConstTables {
+			if val := ip.constTable(fr, v); val != nil {
+				return val
+			}
+		}
 		// table look-up or byte slice
 		xt := fr.info.TypeOf(v.X)
 		if isByteSlice(xt) {
@@ -1147,3 +1164,87 @@ func (ip *Interp) Eval(f *Frame, e ast.Expr, want types.Type) *Value {
 
 // ConstOf exposes constant extraction.
 func ConstOf(v Vec) (uint64, bool) { return constOf(v) }
+
+// constTable: T[k] for a package-level variable T initialised by a literal of constants and a constant k.
+func (ip *Interp) constTable(fr *frame, ix *ast.IndexExpr) *Value {
+	id, ok := ast.Unparen(ix.X).(*ast.Ident)
+	if !ok {
+		return nil
+	}
+	tv, _ := fr.info.ObjectOf(id).(*types.Var)
+	if tv == nil || tv.Pkg() == nil || tv.Parent() != tv.Pkg().Scope() {
+		return nil
+	}
+	kv := ip.expr(fr, ix.Index, nil)
+	if kv == nil || kv.V == nil {
+		fr.why = ""
+		return nil
+	}
+	k, ok := constOf(kv.V)
+	if !ok {
+		return nil
+	}
+	for _, pk := range ip.P.Pkgs {
+		if pk.Types != tv.Pkg() {
+			continue
+		}
+		for _, f := range pk.Syntax {
+			for _, d := range f.Decls {
+				gd, ok := d.(*ast.GenDecl)
+				if !ok || gd.Tok != token.VAR {
+					continue
+				}
+				for _, sp := range gd.Specs {
+					vs := sp.(*ast.ValueSpec)
+					for i, nm := range vs.Names {
+						if pk.TypesInfo.Defs[nm] != types.Object(tv) || i >= len(vs.Values) {
+							continue
+						}
+						cl, ok := ast.Unparen(vs.Values[i]).(*ast.CompositeLit)
+						if !ok {
+							return nil
+						}
+						for pos, el := range cl.Elts {
+							key := uint64(pos)
+							val := el
+							if kve, ok := el.(*ast.KeyValueExpr); ok {
+								ktv, ok := pk.TypesInfo.Types[kve.Key]
+								if !ok || ktv.Value == nil {
+									return nil
+								}
+								kk, _ := constant.Int64Val(constant.ToInt(ktv.Value))
+								key, val = uint64(kk), kve.Value
+							}
+							if key != k {
+								continue
+							}
+							vtv, ok := pk.TypesInfo.Types[val]
+							if !ok || vtv.Value == nil {
+								return nil
+							}
+							w, sg, ok := typeWidth(fr.info.TypeOf(ix))
+							if !ok {
+								return nil
+							}
+							n, _ := constant.Int64Val(constant.ToInt(vtv.Value))
+							return &Value{V: Const(uint64(n), w), Sign: sg}
+						}
+						return nil
+					}
+				}
+			}
+		}
+	}
+	return nil
+}
+
+// EvalConstCond evaluates a boolean/integer expression of function fi to a constant (with Sel and
+// ConstTables in force); ok=false when it does not reduce to one.
+func (ip *Interp) EvalConst(fi *core.FuncInfo, e ast.Expr) (uint64, bool) {
+	fr := &frame{fi: fi, info: fi.Pkg.TypesInfo, env: map[types.Object]*Value{}, base: map[types.Object]bool{}}
+	v := ip.expr(fr, e, nil)
+	if v == nil || v.V == nil || fr.why != "" {
+		return 0, false
+	}
+	return constOf(v.V)
+}
